@@ -154,7 +154,9 @@ pub fn fuzz(args: &Args) {
         b"\x00\x00\xfe\xff\x00\x00\x00A",
         b"/begin A2ML \xe2\x82\xac /end A2ML",
     ];
+    let skip = args.num("skip", 0);
     for i in 0..n {
+        progress(i as usize);
         let mut bytes: Vec<u8> = if rng.chance(1, 2) {
             (0..rng.below(64)).map(|_| rng.next() as u8).collect()
         } else {
@@ -176,6 +178,9 @@ pub fn fuzz(args: &Args) {
         };
         if rng.chance(1, 8) {
             bytes.truncate(rng.below(bytes.len() + 1));
+        }
+        if i < skip {
+            continue; // the random sequence is the same, the files in front of `skip` were run before
         }
         std::fs::write(&file, &bytes).unwrap();
         if let Err(p) = load_outcome(&file) {
